@@ -406,6 +406,9 @@ def worker(part, acc):
 
 
 def run(ctx):
+    from ..seams import validate as _validate_seams
+
+    seam_report = _validate_seams(PROP)  # real random sources under a recorder: every API reached must be modelled (else exit 2)
     its = list(items(ctx.tier))
     k = ctx.jobs * 8
     shards = [its[i::k] for i in range(k)]
@@ -420,6 +423,7 @@ def run(ctx):
         it = sel[(ctx.seed * 3 + 1) % len(sel)][1]
         ctx.sample({kd: [C.show(x) if isinstance(x, dict) and "kind" in x else x for x in it]})
     cov = {
+        "seam_validation": seam_report,
         "evaluations": ev, "distinct_nontrivial": len(nt), "exhaustive": True, "configurations": len(its), "distinct_outcomes": len(oc),
         "pruned_at_budget": ctx.counts.get("pruned-redraw-budget", 0) + ctx.counts.get("pruned-horizon", 0),
         "rule": "every answer of every draw (random.sample -> every k-subset, ordered when <=24; np.random.choice(replace=False,p) -> every subset of the "
